@@ -66,3 +66,23 @@ def signature(src: str, r):
     if (se or hy) and covers(se | hy):
         return "stmt_expr_guard" if se else "hybrid_arm_unguarded"
     return None
+
+
+def output_signature(src: str, probs):
+    """listed finding dead_arm_operand: the source has a ?: with a constant condition and every
+    well-formedness / ownership problem names an operand that occurs in an arm of such a ?:"""
+    from . import cparse as CP
+
+    if not src or not probs:
+        return None
+    try:
+        names = CP.dead_arm_names(CP.parse(src))
+    except CP.ParseError:
+        return None
+    if not names:
+        return None
+    for pr in probs:
+        m = re.search(r"(?:identifier|pure|effect|parameter) (\w+) ", pr)
+        if not m or m.group(1) not in names:
+            return None
+    return "dead_arm_operand"
